@@ -86,6 +86,31 @@ DELEGATING = [
 ]
 
 
+# the value of a chained assignment is evaluated once — also when it is a bare attribute read whose evaluation
+# counts (`O.tick`), or whose base an earlier target re-binds (the random programs reach these now and then)
+STAGED = [
+    {"name": "f", "params": ["a"], "generator": False, "body": [
+        ("assign", [("name", "b"), ("name", "c")], "O.tick"),
+        ("assign", [("name", "d"), ("name", "a"), ("name", "e")], "O.tick"),
+        ("return", "H(1, b, c, d, a, e, O.tick)")]},
+    {"name": "f", "params": ["a"], "generator": False, "body": [
+        ("assign", [("attr", "O", "a")], "H(1, a)"),
+        ("for", ("name", "i"), "T(2, 'list', 2)", [("assign", [("name", "b"), ("attr", "O", "b"), ("name", "c")], "O.tick")], []),
+        ("assign", [("name", "d"), ("name", "e")], "O.a"),
+        ("return", "H(3, b, c, d, e, O.b)")]},
+]
+
+
+def staged(chk, rng, stats):
+    for fn in STAGED:
+        src = pylite.render(fn)
+        for _ in range(3 if chk.tier == "quick" else 20):
+            args = [rng.randrange(0, 9) for _ in fn["params"]]
+            chk.count(src + json.dumps(args), nontrivial=True)
+            chk.dist("staged: chained assignment from an attribute read")
+            compare(chk, fn, src, args, [True] * 12, None, stats, "staged", no_known)
+
+
 def delegation(chk, rng, stats):
     sends = [0, "", False, None, 3, [], "s", 7]
     n = 6 if chk.tier == "quick" else 80
@@ -149,6 +174,7 @@ def run(chk):
             chk.sample({"source": src, "args": args, "script": script, "gen_script": gscript})
     chk.cov["oracle"]["differential"] = stats
     delegation(chk, rng, stats)
+    staged(chk, rng, stats)
     globals_between_calls(chk, rng)
 
 
